@@ -44,6 +44,9 @@ type slotC14 struct {
 	retained []byte       // the slice the packet was decoded from (nil for built packets)
 	frame    []byte       // pristine copy of the frame
 	how      string
+	isNew    bool          // unmarshalled into the constructor's value
+	model    *model.Packet // for built packets
+	plan     []api.Step
 }
 
 func checkC14(c caseC14) (sig, msg string) {
@@ -74,7 +77,7 @@ func checkC14(c caseC14) (sig, msg string) {
 			if !ok {
 				continue
 			}
-			s := &slotC14{frame: append([]byte(nil), op.Frame...), how: op.Kind}
+			s := &slotC14{frame: append([]byte(nil), op.Frame...), how: op.Kind, isNew: op.New}
 			var err error
 			var pan *guard.Panic
 			if op.Kind == "unmarshal" {
@@ -113,7 +116,7 @@ func checkC14(c caseC14) (sig, msg string) {
 			if err != nil {
 				return "harness", err.Error()
 			}
-			s := &slotC14{how: "build"}
+			s := &slotC14{how: "build", model: &m, plan: op.Plan}
 			s.p = api.Build(&m, op.Plan)
 			s.snap = api.Observe(s.p)
 			s.first = s.snap.Clone()
@@ -166,6 +169,17 @@ func checkC14(c caseC14) (sig, msg string) {
 			}
 			s := pool[op.Slot%len(pool)]
 			if s.frame == nil {
+				if s.model != nil {
+					// built through the API: building the same model again
+					// must give the same accessor values as the first time
+					var again model.Packet
+					if pan := guard.Call(func() { again = api.Observe(api.Build(s.model, s.plan)) }); pan != nil {
+						return "panic", fmt.Sprintf("step %d: rebuilding panicked: %v", step, pan.Value)
+					}
+					if d := model.Diff(again, s.first); d != "" {
+						return "history-dependent-build", fmt.Sprintf("step %d: building the same %s through the API again gives other accessor values than the first time: %s", step, typeName(s.first.Type), d)
+					}
+				}
 				continue
 			}
 			q, err, pan := read(append([]byte(nil), s.frame...))
@@ -173,6 +187,9 @@ func checkC14(c caseC14) (sig, msg string) {
 				// compare like with like: same entry point
 				first, _, body, _ := ref.Split(s.frame)
 				v := api.NewZero(int(first >> 4))
+				if s.isNew {
+					v = api.NewPacket(int(first >> 4))
+				}
 				pan = guard.Call(func() { err = v.UnmarshalBinary(append([]byte(nil), body...)) })
 				q = v
 			}
@@ -228,9 +245,18 @@ func TestC14(t *testing.T) {
 			case k <= 1:
 				op.Kind = "unmarshal"
 				op.New = rapid.IntRange(0, 3).Draw(t, "new") == 0
-				if rapid.IntRange(0, 5).Draw(t, "type0") == 0 {
+				if k0 := rapid.IntRange(0, 7).Draw(t, "type0"); k0 == 0 {
 					body := rapid.SliceOfN(rapid.Byte(), 1, 24).Draw(t, "undefined-body")
 					op.Frame = ref.Reframe(byte(rapid.IntRange(0, 15).Draw(t, "nib")), body)
+				} else if k0 == 1 {
+					// a CONNECT that announces another protocol name / version
+					// (structurally fine; decoded into the constructor's value
+					// it overwrites fields that start out as shared defaults)
+					m := genC01(t, model.CONNECT)
+					m.ProtocolName = rapid.SampledFrom([]string{"mqtt", "MQIs", "M", "Mq", "MQTTX", ""}).Draw(t, "protoname")
+					m.ProtocolVersion = rapid.SampledFrom([]uint8{4, 5, 3}).Draw(t, "protover")
+					op.Frame = ref.Canonical(&m)
+					op.New = rapid.Bool().Draw(t, "newconnect")
 				} else {
 					f, _ := genCompleteFrame(t, true)
 					op.Frame = f
@@ -246,6 +272,9 @@ func TestC14(t *testing.T) {
 			case k == 3:
 				op.Kind = "build"
 				typ := uint8(rapid.IntRange(1, 15).Draw(t, "type"))
+				if rapid.IntRange(0, 3).Draw(t, "buildconnect") == 0 {
+					typ = model.CONNECT
+				}
 				m := genC01(t, typ)
 				op.ModelGob, op.Plan = packModel(m), drawPlan(t, &m)
 				types[live] = typ
